@@ -82,7 +82,7 @@ type cliTuple struct {
 	// for form ident: how the identifier got its value — decl (a declared option / positional
 	// variable itself), else the callee (or expression kind) of the right-hand side of its
 	// first assignment in the function, e.g. seqio.Detect, h.Sum, gts.AsLocation, index
-	prov string
+	prov   string
 	key    string
 	direct []string
 	reads  []string
@@ -1109,7 +1109,6 @@ structure Command where
 	b.WriteString("end Gts.Gen.Cli\n")
 	return b.String()
 }
-
 
 // firstAssignKind: the callee (or expression kind) on the right-hand side of the first
 // assignment / definition of name in body
